@@ -284,7 +284,7 @@ func walkTree(n parse.Node, depth int, out []sb.Node) []sb.Node {
 // ---- exec -------------------------------------------------------------------
 
 func opExec(req *sb.Req) *sb.Resp {
-	b, err := buildEnv(req.Env, req.Loader, req.Templates, req.LoadFailAt, req.Yield)
+	b, err := buildEnv(req.Env, req.Loader, req.Templates, req.LoadFailAt, req.Yield, req.LoadFailMode)
 	if err != nil {
 		return &sb.Resp{Status: "infra", Err: err.Error()}
 	}
